@@ -463,11 +463,14 @@ fn try_get_token_a_from_liquidity(
     round_up: bool,
 ) -> Result<u64, CoreError> {
     let sqrt_price_diff = sqrt_price_upper - sqrt_price_lower;
-    let numerator: U256 = <U256>::from(liquidity_delta)
+    let product: U256 = <U256>::from(liquidity_delta)
         .checked_mul(sqrt_price_diff.into())
-        .ok_or(ARITHMETIC_OVERFLOW)?
-        .checked_shl(64)
         .ok_or(ARITHMETIC_OVERFLOW)?;
+    // `checked_shl` does not detect bits shifted out (see try_get_amount_delta_a)
+    if product > (U256::MAX >> 64u32) {
+        return Err(ARITHMETIC_OVERFLOW);
+    }
+    let numerator: U256 = product.checked_shl(64).ok_or(ARITHMETIC_OVERFLOW)?;
     let denominator = <U256>::from(sqrt_price_upper)
         .checked_mul(<U256>::from(sqrt_price_lower))
         .ok_or(ARITHMETIC_OVERFLOW)?;
